@@ -58,6 +58,9 @@ func main() {
 			_ = report.WriteJSON(filepath.Join(*verif, "tables.json"), ref)
 			fmt.Printf("%d tables written to %s\n", len(ref), filepath.Join(*verif, "tables.json"))
 		}
+		loops := rules.NewCtx(p, "quick").LoopSnapshot()
+		_ = report.WriteJSON(filepath.Join(*verif, "loops.json"), loops)
+		fmt.Printf("%d map ranges written to %s\n", len(loops), filepath.Join(*verif, "loops.json"))
 		return
 	}
 	prog.SnapshotPath = filepath.Join(*verif, "funcs.json")
@@ -136,6 +139,7 @@ func run(def *propertyDef, id, repo, verif, tier string, seed int, list, noEvide
 	report.DedupKeys(obs)
 	obs, stale := report.Resolve(id, obs, ff, ex)
 	obs, stale = movedJustifications(p, obs, stale, ex)
+	obs, stale = respelledLoops(verif, obs, stale, ex)
 
 	// instance floors (anti-vacuity)
 	perRule := map[string]int{}
@@ -402,6 +406,59 @@ func movedJustifications(p *prog.Program, obs []report.Obligation, stale []strin
 			}
 			o.Status = report.Justified
 			o.Why = strings.TrimSpace(o.Why + " | justified (construct moved from " + fid + " into the new helper " + gid + "): " + e.Reason)
+			delete(staleSet, msg)
+			break
+		}
+	}
+	var rest []string
+	for _, s := range stale {
+		if staleSet[s] {
+			rest = append(rest, s)
+		}
+	}
+	return obs, rest
+}
+
+// respelledLoops: a justified map range (rule ORD) whose ranged value is now spelled differently - the lookup
+// moved into a helper, a type assertion written another way - keeps its justification when the loop is otherwise
+// the same one: same function, same map type, same module functions called from its body (loops.json holds the
+// signatures of the reference tree). The justification is about what the body does, not about the operand.
+func respelledLoops(verif string, obs []report.Obligation, stale []string, ex *report.Expectations) ([]report.Obligation, []string) {
+	ref := map[string]string{}
+	if b, err := os.ReadFile(filepath.Join(verif, "loops.json")); err != nil || json.Unmarshal(b, &ref) != nil {
+		return obs, stale
+	}
+	staleSet := map[string]bool{}
+	for _, s := range stale {
+		staleSet[s] = true
+	}
+	fn := func(key string) string {
+		if i := strings.Index(key, " :: "); i >= 0 {
+			return key[:i]
+		}
+		return key
+	}
+	for i := range obs {
+		o := &obs[i]
+		if o.Status != report.Violation {
+			continue
+		}
+		d, ok := o.Detail.(map[string]any)
+		if !ok {
+			continue
+		}
+		sig, _ := d["loop_sig"].(string)
+		if sig == "" {
+			continue
+		}
+		for j := range ex.Justified {
+			e := &ex.Justified[j]
+			msg := "justified entry matches no undischarged obligation: " + e.Rule + " " + e.Key
+			if e.Rule != o.Rule || !staleSet[msg] || fn(e.Key) != fn(o.Key) || ref[e.Key] != sig {
+				continue
+			}
+			o.Status = report.Justified
+			o.Why = strings.TrimSpace(o.Why + " | justified (same loop, ranged value re-spelled; was " + e.Key + "): " + e.Reason)
 			delete(staleSet, msg)
 			break
 		}
